@@ -45,6 +45,12 @@ func propC18(c *Check) {
 	c.Rule("R4", "import accepts what the chain writes: every record the running chain builds with fields of statically known shape (constant status, fixed-length keys) has a success path through the Validate method InitGenesis runs on imported records; no named status value of a record leads to a panic in code run on import")
 	c.importValidatorsAcceptRuntimeRecords("R4")
 	c.importAcceptsEveryStatus("R4")
+	c.Rule("R5", "import accepts every setting the chain can store: for each record the running chain modifies field by field and writes back, the Validate method InitGenesis runs has no failure branch on a modified integer field that a storable value (per the guards dominating its store) satisfies")
+	c.importAcceptsRuntimeSettings("R5")
+	c.Rule("R6", "what import refuses the running chain never creates: voter records are created only with a vote key no existing voter uses (InitGenesis refuses duplicated vote keys)")
+	c.freshVotersAreDistinct("R6")
+	c.Rule("R7", "a chain initialised from an exported state can execute its first block: the begin blocker does not fail when the block has no last commit (initial height above 1)")
+	c.hookFailureNeedsLastCommit("R7")
 	c.Rule("R1", "coverage: every collection of every keeper is read by its module's ExportGenesis and written by its InitGenesis, or is a derived index that InitGenesis rebuilds; every GenesisState field is assigned on export and consumed on import")
 	c.Rule("R2", "derived data obeys the runtime guards: InitGenesis ranks / indexes only Pending/Active validators, ranks only positive power, records only Active validators in the validator set, and rebuilds the voter queue from the voter status")
 	c.Rule("R3", "the exported validator set is LockingKeeper.ActiveValidators, which walks ValidatorSet and reports the recorded power and the validator's key")
@@ -357,7 +363,7 @@ func propC19(c *Check) {
 		"x/locking/keeper.Keeper.EndBlocker|invalid iterator: validator power is bigger than before": "collections iterate PowerRanking in descending key order (trusted)",
 		"x/locking/keeper.Keeper.EndBlocker|pending validator %x existed in the last validator set":  "ValidatorSet holds Active validators only (C13/R4, C14/R1: Active→Pending is written together with ValidatorSet.Remove)",
 		"x/locking/keeper.Keeper.EndBlocker|%s validator %x in power ranking":                        "only Pending/Active validators are ranked (C13/R1, R3)",
-		"x/locking/keeper.Keeper.DistributeReward|invalid zero power":                                "CometBFT never commits a block with an empty validator set (trusted)",
+		"x/locking/keeper.Keeper.DistributeReward|invalid zero power":                                "reached only with a non-empty last commit (obligation failure-exit-needs-last-commit), whose signers have positive power in CometBFT (trusted)",
 		"x/relayer/keeper.Keeper.EndBlocker|delete too many voters in ElectProposer":                 "removals that would empty the group are never queued (C16/R3)",
 		"x/goat/keeper.Keeper.Finalized|invalid from NewPayloadV4 api":                               "intended: an engine fault must abort the block (C09)",
 		"x/goat/keeper.Keeper.Finalized|invalid from ForkchoiceUpdatedV3 api":                        "intended: an engine fault must abort the block (C09)",
@@ -395,6 +401,7 @@ func propC19(c *Check) {
 	sort.Strings(keysFound)
 	c.Extra["block_hook_error_exits"] = keysFound
 	c.Floor("R3", "reviewed block-hook error exits found", len(found), 3)
+	c.hookFailureNeedsLastCommit("R3")
 	// the invariants that make the reviewed exits unreachable
 	c.Depend("R3", "C16", propC16, map[string]bool{"R3": true}, "relayer EndBlocker's 'delete too many voters' exit is unreachable only if removals never empty the group")
 	c.Depend("R3", "C13", propC13, map[string]bool{"R1": true, "R2": true, "R3": true}, "locking EndBlocker's 'validator in power ranking' exit and CometBFT's rejection of zero-power additions are excluded only by the ranking discipline")
